@@ -49,6 +49,29 @@ def run(tier, seed):
                 finally:
                     signal.setitimer(signal.ITIMER_REAL, 0)
 
+    # "parsing any source text finishes promptly": markup that is never closed, followed by (or full
+    # of) long runs of whitespace -- the lexer's patterns must not backtrack polynomially.  The budget
+    # is generous (a linear scan of these 2-8 KB sources takes milliseconds); the backtracking
+    # patterns needed minutes to hours.
+    size = 8000 if tier == "thorough" else 2500
+    adversarial = {"open-tag+spaces": "{%" + " " * size, "open-output+spaces": "{{" + " " * size, "open-tag+name+spaces": "{% x" + " " * size, "open-tag+newlines": "{%" + "\n" * size,
+                   "open-output+name+spaces": "{{ x" + " " * size + "|", "open-tag+words": "{% x y" + " z" * size, "open-raw+spaces": "{% raw" + " " * size, "open-liquid+lines": "{% liquid" + "\n  " * size,
+                   "many-open-tags": ("{% " + " " * 40) * (size // 40), "hyphens": "{%-" + " -" * size, "open-comment+spaces": "{% comment %}" + " " * size}
+    env = Environment()
+    for label, src in adversarial.items():
+        cases += 1
+        signal.setitimer(signal.ITIMER_REAL, 20.0)
+        try:
+            env.from_string(src)
+        except Timeout:
+            viol.append({"id": "hang", "witness": "slow-lexing:" + label, "source": src[:12] + f"... ({len(src)} characters)", "got": "no result within 20 s"})
+        except LiquidError:
+            pass
+        except Exception:  # noqa: BLE001
+            pass
+        finally:
+            signal.setitimer(signal.ITIMER_REAL, 0)
+
     def nest(d, inner):
         return "{% if true %}" * d + inner + "{% endif %}" * d
 
